@@ -488,6 +488,7 @@ func plan(ts []target, thorough bool) []histSpec {
 				continue // (quick: the other accumulation shapes with large packets only)
 			}
 			add(t, shUnitsNoMarker, sz, accLen(t, sz, thorough))
+			add(t, shFragThenFill, sz, accLen(t, sz, thorough))
 			if t.lim.unitCap > 0 {
 				add(t, shFillThenFrag, sz, accLen(t, sz, thorough))
 			}
